@@ -220,7 +220,10 @@ namespace xsimd
         {
             if (std::is_signed<T>::value)
             {
-                return sadd(self, -other);
+                // -other overflows for the most negative value: clamp self so that self - other cannot overflow
+                auto self_pos_branch = max(std::numeric_limits<T>::min() + other, self);
+                auto self_neg_branch = min(std::numeric_limits<T>::max() + other, self);
+                return select(other < batch<T, A>(T(0)), self_neg_branch, self_pos_branch) - other;
             }
             else
             {
